@@ -1,5 +1,5 @@
 #!/bin/sh
-# tools/sweep.sh <seed>... — quick tier of every property under other VERIF_SEED values, run from a snapshot (vp run --with-repo):
+# tools/sweep.sh <seed>... — quick tier (SWEEP_TIER=thorough for the thorough one) of every property (or of $SWEEP_IDS) under other VERIF_SEED values, run from a snapshot (vp run --with-repo):
 # the snapshot's harness / extractor are pointed at $VP_RUN_REPO (a copy of /repo's HEAD), so seeded patches applied to /repo
 # meanwhile do not disturb it. Output: sweep.<seed>.txt in the snapshot directory.
 here=$(pwd)
@@ -7,10 +7,11 @@ repo=${VP_RUN_REPO:-/repo}
 sed -i "s#=> /repo#=> $repo#" harness/go.mod extract/go.mod 2>/dev/null
 export VERIF_REPO=$repo
 python3 bin/check --setup > setup.log 2>&1
-ids=$(python3 -c "import sys; sys.path.insert(0,'bin'); from props import PROPS; print(' '.join(sorted(PROPS)))")
+ids=${SWEEP_IDS:-$(python3 -c "import sys; sys.path.insert(0,'bin'); from props import PROPS; print(' '.join(sorted(PROPS)))")}
+tier=${SWEEP_TIER:-quick}
 for s in "$@"; do
   mkdir -p work
-  for p in $ids; do (VERIF_SEED=$s bin/check $p quick > work/sweep.$s.$p.out 2>&1; echo "exit=$?" >> work/sweep.$s.$p.out) & done; wait
+  for p in $ids; do (VERIF_SEED=$s timeout ${SWEEP_TIMEOUT:-3600} bin/check $p $tier > work/sweep.$s.$p.out 2>&1; echo "exit=$?" >> work/sweep.$s.$p.out) & done; wait
   for p in $ids; do echo "== $p seed=$s $(grep -v '^KNOWN-FINDING' work/sweep.$s.$p.out | tail -2 | tr '\n' ' ')"; done > sweep.$s.txt
 done
 echo finished > sweep.done
